@@ -182,6 +182,130 @@ def run_rls(case, rng):
     return req, ans
 
 
+def _snapshot(objs):
+    """bitwise fingerprints of every array-like input (dense arrays, sparse data/indices/indptr, lists)"""
+    snap = {}
+    for name, o in objs.items():
+        if o is None or np.isscalar(o):
+            snap[name] = repr(o)
+        elif scipy.sparse.issparse(o):
+            snap[name] = (o.format, o.shape, o.data.tobytes(), o.indices.tobytes(), o.indptr.tobytes())
+        elif isinstance(o, np.ndarray):
+            snap[name] = (o.dtype.str, o.shape, o.tobytes())
+        else:
+            snap[name] = repr(list(o))
+    return snap
+
+
+def shared_input_stream(ctx):
+    """(1) monitor: every input of RestrictedLinearSystem (A data/indices, b, indices, values, elim_rows) and
+    every vector passed to restrict/extend/restrict_rhs/restrict_matrix/complete is bitwise unchanged afterwards;
+    (2) history: 2-3 systems are built from the SAME right-hand-side array object (and the same A, indices)
+    with different Dirichlet value sets - several load cases - and each is checked by the exact oracle against
+    pristine copies: u = extend(u_f) + R_elim^T values (through the implementation's own linear maps, scaled
+    to stay integral) takes the prescribed values and satisfies every non-eliminated equation of the ORIGINAL
+    system.  No Lean model involved."""
+    from pyiga import assemble
+    rng = ctx.rng
+    ncase = 500 if ctx.tier == 'quick' else 6000
+    nbad = 0
+    reported = set()
+    for t in range(ncase):
+        n = int(rng.integers(2, 8))
+        A0 = rand_matrix(rng, n, n, dominant=True)
+        b0 = rng.integers(-6, 7, size=n)
+        k = int(rng.integers(1, n))
+        idx0 = [int(i) for i in rng.permutation(n)[:k]]
+        use_er = rng.integers(0, 4) == 0
+        er0 = [int(i) for i in rng.permutation(n)[:k]] if use_er else None
+        fmt = [None, 'csr', 'csc'][int(rng.integers(0, 3))]
+        A = A0.astype(float)
+        if fmt:
+            A = getattr(scipy.sparse, fmt + '_matrix')(A)
+        b = np.array(b0, dtype=float)                      # ONE rhs object for all load cases
+        idx = np.array(idx0, dtype=int)
+        er = None if er0 is None else (np.array(er0, dtype=int) if rng.integers(0, 2) else list(er0))
+        nsys = int(rng.integers(2, 4))
+        valsets = [[int(v) for v in rng.integers(-7, 8, size=k)] for _ in range(nsys)]
+        if rng.integers(0, 5) == 0:
+            valsets[0] = [0] * k
+        ctx.case(('shared-rhs', n, tuple(idx0), fmt, tuple(map(tuple, valsets))), nontrivial=True)
+        ctx.count('shared-rhs histories'); ctx.count('shared-rhs systems', nsys)
+        free = [j for j in range(n) if j not in set(idx0)]
+        freev = [r for r in range(n) if r not in set(idx0 if er0 is None else er0)]
+        found, key, alias = None, None, None
+        replay = {'n': n, 'A': A0.tolist(), 'A_format': fmt or 'ndarray', 'b (one float64 array reused for every system)': b0.tolist(),
+                  'indices': idx0, 'elim_rows': er0, 'value_sets': valsets,
+                  'call': 'for vals in value_sets: S = RestrictedLinearSystem(A, b, (indices, np.array(vals, float)), elim_rows); '
+                          'u = S.complete(solve(S.A, S.b)); check u[indices] == vals and (A u)[r] == b_pristine[r] on non-eliminated rows'}
+        try:
+            for si, vs in enumerate(valsets):
+                vals = np.array(vs, dtype=float)
+                u = rng.integers(-5, 6, size=n).astype(float)
+                uf = rng.integers(-5, 6, size=len(free)).astype(float)
+                f = rng.integers(-5, 6, size=n).astype(float)
+                B = rng.integers(-4, 5, size=(n, n)).astype(float)
+                inputs = {'A': A, 'b': b, 'indices': idx, 'values': vals, 'elim_rows': er, 'u': u, 'u_f': uf, 'f': f, 'B': B}
+                before = _snapshot(inputs)
+                S = assemble.RestrictedLinearSystem(A, b, (idx, vals), elim_rows=er)
+                after_ctor = _snapshot(inputs)
+                S.restrict(u); S.extend(uf); S.restrict_rhs(f); S.restrict_matrix(B); S.complete(uf)
+                after = _snapshot(inputs)
+                changed = [nm for nm in before if before[nm] != after_ctor[nm]]
+                changed2 = [nm for nm in before if after_ctor[nm] != after[nm]]
+                if changed or changed2:
+                    alias = alias or ('system %d: input %s modified in place by %s' % (
+                        si, ', '.join(changed or changed2), 'the constructor' if changed else 'restrict/extend/restrict_rhs/restrict_matrix/complete'))
+                # exact oracle against the pristine data
+                Ar = S.A.toarray() if scipy.sparse.issparse(S.A) else np.asarray(S.A)
+                Ari, bri = exact_ints(Ar), exact_ints(np.asarray(S.b, dtype=float).ravel())
+                kf = len(free)
+                if Ar.shape != (len(freev), kf) or Ari is None or bri is None:
+                    found = found or 'system %d: restricted system has the wrong shape or is not integer-valued' % si
+                    key = key or 'bc-history:shared-rhs'
+                    continue
+                if len(freev) != kf:
+                    continue
+                uf_ex = solve_fraction([Ari[i * kf:(i + 1) * kf] for i in range(kf)], bri) if kf else []
+                if uf_ex is None:
+                    continue
+                den = 1
+                for q in uf_ex:
+                    den = den * q.denominator // math.gcd(den, q.denominator)
+                if den >= 2 ** 30:
+                    continue
+                # den * u = extend(den * u_f) + den * complete(0): the implementation's own maps on integer data
+                ext = exact_ints(S.extend(np.array([int(q * den) for q in uf_ex], dtype=float)))
+                c0 = exact_ints(S.complete(np.zeros(kf)))
+                if ext is None or c0 is None or len(ext) != n or len(c0) != n:
+                    found = found or 'system %d: extend/complete do not return integer vectors of length n for integer data' % si
+                    key = key or 'bc-history:shared-rhs'
+                    continue
+                U = [ext[j] + den * c0[j] for j in range(n)]
+                for i, v in zip(idx0, vs):
+                    if U[i] != den * v and found is None:
+                        found = 'system %d (values %s): completed solution has u[%d] = %s, prescribed %d' % (si, vs, i, Fraction(U[i], den), v)
+                        key = 'bc-history:shared-rhs'
+                for r in freev:
+                    lhs = sum(int(A0[r, j]) * U[j] for j in range(n))
+                    if lhs != den * int(b0[r]) and found is None:
+                        found = ('system %d (values %s) built from the same rhs array as the previous system(s): the completed solution violates '
+                                 'non-eliminated equation %d of the original system: (A u)[%d] = %s, b[%d] = %d' % (
+                                     si, vs, r, r, Fraction(lhs, den), r, int(b0[r])))
+                        key = 'bc-history:shared-rhs'
+        except Exception as ex:
+            found = found or 'implementation raised %s: %s' % (type(ex).__name__, str(ex)[:120])
+            key = key or 'bc-history:shared-rhs'
+        if found is not None or alias is not None:
+            nbad += 1
+        for kk, dd in (('bc-alias:inputs', alias), (key, found)):
+            if dd is not None and kk not in reported:
+                reported.add(kk)
+                ctx.violation(kk, dd, dict(replay, oracle=dd), True)
+    ctx.obligation('input-aliasing monitor and shared-rhs histories: %d histories; inputs bitwise unchanged, every system exact w.r.t. pristine data' % ncase,
+                   nbad == 0, '%d failing histories' % nbad)
+
+
 def rand_matrix(rng, m, n, dominant=False):
     A = rng.integers(-4, 5, size=(m, n))
     if dominant:
@@ -880,6 +1004,8 @@ def run(ctx):
                       dict(rep, oracle=found), found is not None)
     ctx.obligation('correspondence stream bc: %d requests, model == implementation' % len(req), ndis == 0, '%d disagreements' % ndis)
     ctx.extra['requests'] = len(req)
+
+    shared_input_stream(ctx)
 
     # ------------------------------------------------------------ direct oracle runs (model-free)
     nor = 800 if ctx.tier == 'quick' else 3000
